@@ -46,7 +46,18 @@ func init() {
 				}
 				p := genProblem(r, po)
 				a := p.Known[0]
-				if method == "choquetIntegral" && r.chance(0.5) { // clusters of near-ties around 1e-5
+				if method == "choquetIntegral" && r.chance(0.12) {
+					// large magnitudes: differences well above the absolute tie tolerance 1e-5 but small relative to the values
+					base := []float64{2000, 24000, 1e6}[r.Intn(3)]
+					for _, id := range p.critIds() {
+						if r.chance(0.7) {
+							a.Criteria[id] = base + float64(r.Intn(5))*0.005
+						} else {
+							a.Criteria[id] = base/2 + float64(r.Intn(3))
+						}
+					}
+					o.count("large-magnitude-near-ties")
+				} else if method == "choquetIntegral" && r.chance(0.5) { // clusters of near-ties around 1e-5
 					base := float64(r.Intn(4))
 					for _, id := range p.critIds() {
 						switch r.Intn(4) {
